@@ -61,7 +61,10 @@ def _base(r, n=(2, 8), kinds=KW_PROC, p_par=0.6, mon=None, p_async=(0.0, 1e-3, 1
            "git": {"mode": "none"}, "disable_git": r.random() < 0.5, "history": [],
            "knobs": S.gen_knobs(r, mon=mon, p_async_choices=p_async)}
     if include_p and r.random() < include_p:
-        S.add_include(r, scn)
+        if r.random() < 0.35:
+            S.add_include_reldeps(r, scn)
+        else:
+            S.add_include(r, scn)
     _maybe_dup_dep(r, scn)
     return scn
 
@@ -72,7 +75,7 @@ def _maybe_dup_dep(r, scn, p=0.03):
     """the same dependency listed twice, spelled ":name" and "//pkg:name": must be refused"""
     if r.random() >= p or scn.get("include"):
         return
-    cands = [(t, d) for t, d in scn["tasks"].items() if not d.get("xg") and not d.get("inc") and d["kind"] != "combine"
+    cands = [(t, d) for t, d in scn["tasks"].items() if not d.get("xg") and not d.get("inc") and not d.get("increl") and d["kind"] != "combine"
              and any(S.split_tid(x)[0] == S.split_tid(t)[0] for x in d["deps"])]
     if cands:
         t, d = r.choice(cands)
@@ -136,7 +139,7 @@ def gen_C09(r):
 
 
 def gen_C01(r):
-    scn = _base(r, n=(3, 9), kinds=KW_ALL, p_par=0.6, mon=None)
+    scn = _base(r, n=(3, 9), kinds=KW_ALL, p_par=0.6, mon=None, include_p=0.08)
     for _ in range(r.choice([1, 2, 3])):
         scn["history"].append(_run_op(r, scn["tasks"], jobs_choices=(None, 1, 2, 3, 4), again_p=0.4,
                                       fail_p=r.choice([0.0, 0.0, 0.15]), files=False))
@@ -158,6 +161,13 @@ def gen_C02(r):
                                       target=r.choice(list(scn["tasks"])) if r.random() < 0.5 else None))
     if r.random() < 0.2:
         scn["history"][-1]["flags"]["check"] = True
+    elif r.random() < 0.08:
+        # results moved to another volume (symbolic link in cond-out), a gc, and the task is run again: what
+        # was reusable before the gc still is
+        scn["history"].insert(-1, {"op": "plant", "items": [{"kind": "relocate_recorded", "idx": r.randrange(6),
+                                                             "what": r.choice(["version", "package"])}]})
+        scn["history"].insert(-1, {"op": "gc", "flags": {"verbose": r.random() < 0.3}, "cwd": ""})
+        scn["history"][-1]["flags"].pop("again", None)
     if r.random() < 0.05 and "dup_dep" not in scn and not scn.get("include"):
         # the same dependency listed twice, spelled ":name" and "//pkg:name": must be refused
         cands = [(t, d) for t, d in scn["tasks"].items() if not d.get("xg") and d["kind"] != "combine"
@@ -950,6 +960,9 @@ def gen_C13(r):
             ops.append({"op": "restore", "archive": "F0", "cwd": ""})
     if r.random() < 0.7:
         ops.append({"op": "plant", "items": _plants(r)})
+    if r.random() < 0.15:
+        ops.append({"op": "plant", "items": [{"kind": "relocate_recorded", "idx": r.randrange(6),
+                                              "what": r.choice(["version", "package"])}]})
     if r.random() < 0.2:
         scn["enclosing"] = True
     n_gc = r.choice([1, 1, 2])
@@ -1000,6 +1013,11 @@ def gen_C18(r):
                                                       "path": M_.out_dir_rel(c) + "/" + S.split_tid(d)[1],
                                                       "files": ["mine.txt"]}]})
                 op["combine_conflict_hint"] = c
+        elif k and r.random() < 0.15:
+            # an old version directory deleted by hand to free space (the entry that points at it dangles), or
+            # moved to another volume and replaced by a symbolic link
+            ops.append({"op": "plant", "items": [r.choice([{"kind": "remove_recorded_dir", "idx": r.randrange(6)},
+                                                           {"kind": "relocate_recorded", "idx": r.randrange(6), "what": "version"}])]})
         ops.append(op)
         if ops[0]["op"] == "git" and r.random() < 0.3:
             ops.append({"op": "git", "action": "commit", "name": "c%d" % (k + 1)})
@@ -1251,7 +1269,29 @@ GEN["C05"] = gen_C05
 _gen_C09_base, _gen_C04_base, _gen_C01_base = gen_C09, gen_C04, gen_C01
 
 
+def _add_stops(r, scn, p=0.06):
+    """job control: a task is suspended (SIGSTOP / SIGTSTP by a user, a batch system) and continued later"""
+    for op in scn["history"]:
+        if op["op"] != "run":
+            continue
+        for t, lst in (op.get("scripts") or {}).items():
+            for sc in lst:
+                if r.random() < p and not sc.get("launch") and not sc.get("instant_exit"):
+                    steps = list(sc["steps"])
+                    steps.insert(r.randint(0, len(steps)), ["stop", r.choice([19, 20]), r.choice([0, 1, 3, 8])])
+                    sc["steps"] = steps
+    return scn
+
+
 def gen_C09(r):  # noqa: F811
+    return _add_stops(r, _gen_C09_stops(r))
+
+
+def gen_C04(r):  # noqa: F811
+    return _add_stops(r, _gen_C04_stops(r))
+
+
+def _gen_C09_stops(r):
     if r.random() < 0.3:
         scn = _fanout_scenario(r, stop_early_p=0.15, fail_p=r.choice([0.1, 0.3]))
         scn["knobs"]["mon"] = True
@@ -1263,7 +1303,7 @@ def gen_C09(r):  # noqa: F811
     return _gen_C09_base(r)
 
 
-def gen_C04(r):  # noqa: F811
+def _gen_C04_stops(r):
     if r.random() < 0.08:
         scn = _gen_C04_base(r)
         pkgs_used = sorted({S.split_tid(t)[0] for t, d in scn["tasks"].items() if d["kind"] in ("exp", "cmd") and not d.get("xg")})
@@ -1303,12 +1343,38 @@ def gen_C04(r):  # noqa: F811
     return _gen_C04_base(r)
 
 
+def _own_stdout_fault(r, scn, p):
+    """I/O fault on Conductor's own stdout: it is a pipe (block buffered) or a terminal (line buffered) whose
+    reader goes away after some bytes (`cond run ... | head`); experiments write output (it is forwarded in
+    sequential mode) and some of them fail, so that whatever swallows the EPIPE has something to hide"""
+    if r.random() >= p:
+        return scn
+    runs = [o for o in scn["history"] if o["op"] == "run"]
+    if not runs:
+        return scn
+    op = r.choice(runs)
+    op["own_stdout"] = {"mode": r.choice(["pipe", "pipe", "tty"]), "gone_after": r.choice([0, 0, 40, 150, 600, 3000])}
+    if r.random() < 0.7:
+        op["flags"].pop("jobs", None)
+    for t, lst in (op.get("scripts") or {}).items():
+        if scn["tasks"].get(t, {}).get("kind") != "exp":
+            continue
+        for sc in lst[:1]:
+            if sc.get("launch"):
+                continue
+            sc["steps"] = list(sc["steps"]) + [[r.choice(["out", "out", "err"]),
+                                                {"k": "txt", "n": r.choice([1, 30, 300]), "seed": r.randrange(1 << 30)}]]
+            if r.random() < 0.4:
+                sc["end"] = ["exit", r.choice([1, 2, 3])]
+    return scn
+
+
 def gen_C01(r):  # noqa: F811
     if r.random() < 0.08:
         return _cached_chain_scenario(r)
     if r.random() < 0.15:
-        return gen_C04(r)
-    return _gen_C01_base(r)
+        return _own_stdout_fault(r, gen_C04(r), 0.06)
+    return _own_stdout_fault(r, _gen_C01_base(r), 0.08)
 
 
 GEN["C09"], GEN["C04"], GEN["C01"] = gen_C09, gen_C04, gen_C01
